@@ -201,6 +201,33 @@ pub fn drive(a: &Args) -> i32 {
             } else if !q.open(&mut t).await {
                 continue;
             }
+            if kind == 2 {
+                // a peer whose every accepted message carries an almost one hour old timestamp: once they have crossed the
+                // hour, the in-memory clean-up of old sequence records must not make the store forget the peer's mark
+                let k = rng.gen_range(1..=3u64);
+                let ts = now() - 3598;
+                let reqs: Vec<BatchUpdateRequest> = (1..=k)
+                    .map(|s| BatchUpdateRequest { user_id: q.peers[0].clone(), sequence: s, message_hash: q.hashes[0], timestamp: ts })
+                    .collect();
+                let sys = q.sys.as_ref().expect("open");
+                if let Ok(Ok(rs)) = std::panic::AssertUnwindSafe(sys.batch_update(reqs)).catch_unwind().await {
+                    for (i, r) in rs.iter().enumerate() {
+                        t.ev(json!({"ev":"Submit","via":"batch_update","i":i,"p":1,"s":proj(i as u64 + 1),"ts":"edgeO",
+                                    "res":res_name(&r.result),"applied":r.applied}));
+                    }
+                }
+                q.obs(&mut t, 0).await;
+                tokio::time::sleep(Duration::from_millis(3200)).await;
+                if let Some(s) = q.sys.as_ref() {
+                    let _ = s.cleanup_old_sequences().await;
+                }
+                t.ev(json!({"ev":"Cleanup"}));
+                q.obs(&mut t, 0).await;
+                submit_single(&q, &mut t, 0, 1, q.hashes[1]).await;
+                q.obs(&mut t, 0).await;
+                submit_single(&q, &mut t, 0, k, q.hashes[0]).await;
+                q.obs(&mut t, 0).await;
+            }
             if kind == 5 {
                 // more accepted numbers than the per-peer history keeps (1000): old numbers must stay rejected
                 for s in 1..=long {
